@@ -33,7 +33,7 @@ fn foreign_group(tag: u16, payload: &[u8]) -> Group {
     let mut raw = tag_bytes(tag);
     raw.push(payload.len() as u8);
     raw.extend_from_slice(payload);
-    Group { field: usize::MAX, name: "<foreign>".into(), tag: Some(tag), card: Card::Opt, elems: vec![Elem { tag: Some(tag), len: Len::Tlv, node: Node::Leaf(payload.to_vec()), announce: None, raw: Some(raw) }], nested: None }
+    Group { field: usize::MAX, name: "<foreign>".into(), tag: Some(tag), card: Card::Opt, elems: vec![Elem { tag: Some(tag), len: Len::Tlv, node: Node::Leaf(payload.to_vec()), announce: None, raw: Some(raw), prefix_override: None }], nested: None, enc: Enc::Bytes }
 }
 
 /// Apply `edit` at the level `path`. Returns the edited tree and the index (in the edited level) of the first tampered group.
